@@ -1,4 +1,5 @@
 import RjModel.Lemmas.BossOutcome
+import RjModel.Generated.BehaviourWrites
 /-! # C03 — nothing on the destination is deleted or overwritten without configured consent -/
 namespace Rj.C03
 open Rj
@@ -128,5 +129,14 @@ example :
     let r := confirmDeletes c [("a", (.folder, .notOnSource)), ("b", (.folder, .notOnSource)), ("c", (.folder, .notOnSource))] []
     r.1 = none ∧ r.2.2 = ["a"] ∧ r.2.1.beh.entry = .proceed ∧ r.2.1.prompts = [.entry, .entry] ∧ r.2.1.beh.newer = .prompt := by
   decide
+
+/-- **The behaviours in force change only by a remembered prompt answer** (extracted from boss_sync.rs on every run): the only assignments to a
+behaviour field of the sync context are the four `if let Some(b) = prompt_result.remembered_behaviour { ctx.<field> = b; }` inside the
+resolution of that same field - which is what the model's `Conf` does (`C03_root_gate_scoped`: nothing else, in particular not the
+root-deletion gate, rewrites a behaviour after `resolve_spec`). -/
+theorem C03_behaviours_change_only_by_remembered_answers :
+    Generated.behaviourWrites = [("dest_entry_needs_deleting_behaviour", "remembered"), ("dest_file_newer_behaviour", "remembered"),
+      ("dest_file_older_behaviour", "remembered"), ("files_same_time_behaviour", "remembered")] := by decide
+
 
 end Rj.C03
